@@ -419,12 +419,30 @@ def undescribe_joint(d):
 
 
 # ---------------------------------------------------------------- group A : stand-alone classes
-def gen_single(r, k):
+def gen_single(r, k, extreme=False):
     kind = ["gauss", "exp", "unif"][k % 3]
     m = r.randint(1, 4)
     nth = m + r.randint(0, 3)
+    if extreme:
+        # several variables whose scales all sit at the same far end of the double range (1e-75..1e-45 or
+        # 1e45..1e75): every per-variable term is an ordinary number, but the PRODUCT of the scales (or of
+        # their reciprocals) is outside binary64 -- a normalisation taken as log(prod) instead of sum(log)
+        # is infinite there while the density the class is named after is not
+        m = r.randint(6, 8)
+        nth = m + r.randint(0, 2)
+        sgn = r.choice([-1, 1])
+        ex = [10.0 ** (sgn * r.uniform(45, 75)) for _ in range(m)]
     vs = r.sample(range(nth), m)
-    if kind == "gauss":
+    if extreme and kind == "gauss":
+        p1 = [r.uniform(-50, 50) for _ in range(m)]
+        p2 = ex
+    elif extreme and kind == "exp":
+        p1 = ex
+        p2 = [0.0] * m
+    elif extreme:
+        p1 = [r.choice([0.0, e * r.uniform(-1, 1)]) for e in ex]
+        p2 = [a + e for a, e in zip(p1, ex)]
+    elif kind == "gauss":
         p1 = [r.uniform(-50, 50) for _ in range(m)]
         p2 = [10.0 ** r.uniform(-6, 6) for _ in range(m)]
     elif kind == "exp":
@@ -836,8 +854,12 @@ def run(rep: C.Report, tier: str) -> int:
 
     # ---------------- (A) stand-alone classes
     nA = 45 if not big else 300
-    for k in range(nA):
-        c, th, mode = gen_single(r, k)
+    nX = 9 if not big else 45        # extreme-scale cases, drawn from their own stream (the others keep theirs)
+    rx = C.rng_for(PROP, "extreme-scales")
+    for k in range(nA + nX):
+        c, th, mode = gen_single(r, k) if k < nA else gen_single(rx, k, extreme=True)
+        if k >= nA:
+            rep.count("A:scales=extreme")
         out = run_single(c, th, k % 3)
         rep.count(f"A:class={c['kind']}")
         rep.count(f"A:theta={mode}")
@@ -847,6 +869,15 @@ def run(rep: C.Report, tier: str) -> int:
         if out["status"] != "ok":
             rep.violation("C06/exception", f"{c['kind']} prior failed on a valid input: {out.get('error')}",
                           {"case": describe_joint({"n": len(th), "comps": [c]}, th), "group": "A"}, True)
+            continue
+        if not math.isfinite(out["value"]):
+            # the log of a normalised density is a real number for every parameter vector (the code's own
+            # convention outside the support is the finite -1e100); the model's value is finite as well
+            rep.violation("C06/value", f"{c['kind']} prior returns {out['value']!r} for a valid input where the "
+                          f"log-density of the named distribution is about {-prior_value_mag([c], th):.6g} in magnitude "
+                          f"(scales {[float(x) for x in (c['p2'] if c['kind'] == 'gauss' else c['p1'])][:3]}...)",
+                          {"case": describe_joint({"n": len(th), "comps": [c]}, th), "group": "A",
+                           "impl_value": repr(out["value"])}, True)
             continue
         if out["cost"] != -out["value"] or any(a != -b for a, b in zip(out["cgrad"], out["grad"])):
             rep.violation("C06/cost", "cost / cost_gradient of a prior is not the exact negative",
